@@ -1,5 +1,5 @@
 // C15 recorder (V): seeded random driver of asl's codecs on inputs far larger than TLC's exhaustive scope (arrays up to
-// --mode KiB, SHA-1 messages up to min(--mode, 64) KiB, lengths clustered around the 3-byte / 64-byte block edges) and on
+// --mode KiB, SHA-1 messages up to min(--mode, 128) KiB, lengths clustered around the 3-byte / 64-byte block edges) and on
 // mutated / malformed texts.  It logs arguments and results as byte lists, one ndjson line per input;
 // spec/Trace_Codecs.tla recomputes every expected value from spec/Codecs.tla.  Nothing is judged here.
 #include "c15_common.h"
@@ -88,7 +88,7 @@ int main(int argc, char** argv)
 	Log log(args.out);
 	int maxKiB = args.mode > 0 ? args.mode : 64;
 	int maxBytes = maxKiB * 1024;
-	int maxSha = maxBytes < 65536 ? maxBytes : 65536;
+	int maxSha = maxBytes < 131072 ? maxBytes : 131072;
 	log.line("{\"e\":\"reset\"}");
 	for (long ev = 0; ev < args.events; ev++)
 	{
